@@ -350,6 +350,76 @@ def request_from_callback_case():
         link.rig.stop()
 
 
+def late_reply_case():
+    """A reply whose requester gives up (T3) at the very moment the receiver thread is handing it over: the receiver thread has seen that
+    somebody waits for these system bytes, then the requester times out and removes its waiter, then the receiver thread goes on (forced
+    by holding the receiver thread inside _add_message_block).  Two messages arrived before the reply; the handler of the first is still
+    running.  The reply is nobody's any more: it is handed to the application - after the messages that arrived before it, by the
+    dispatcher thread, not while another callback runs (D78)."""
+    link = Link()
+    link.rig.settings.timeouts.t3 = 0.6
+    link.up()
+    proto = link.proto
+    threads = []
+    gate = threading.Event()
+    inner_app = link._on_app
+
+    def app(data):
+        threads.append((data["message"].header.system, threading.current_thread().name))
+        if data["message"].header.system == 0x500:
+            gate.wait(8)
+        inner_app(data)
+
+    proto.events.message_received -= link._on_app
+    proto.events.message_received += app
+    result = []
+    done = threading.Event()
+
+    def requester():
+        result.append(proto.send_and_waitfor_response(link.sf.function(1, 1)()))
+        done.set()
+
+    before = len(protorig_split(link.rig.conn.sent))
+    th = threading.Thread(target=requester, daemon=True)
+    th.start()
+    deadline = time.monotonic() + 5
+    system = None
+    while system is None and time.monotonic() < deadline:
+        for b in protorig_split(link.rig.conn.sent)[before:]:
+            if b.header.s_type.value == 0 and (b.header.stream, b.header.function) == (1, 1):
+                system = b.header.system
+        time.sleep(0.002)
+    try:
+        if system is None:
+            return {"request_sent": False}
+        original = proto._add_message_block
+
+        def held(block):
+            if block.header.system == system:
+                done.wait(8)           # the requester times out and removes its waiter while the receiver thread is here
+            return original(block)
+
+        proto._add_message_block = held
+        link.rig.conn.feed(link.reply_frame(0x500, 500, w=True))
+        link.rig.conn.feed(link.reply_frame(0x501, 501, w=True))
+        time.sleep(0.1)
+        link.rig.conn.feed(link.reply_frame(system, 777))
+        done.wait(8)
+        time.sleep(0.3)
+        early = list(threads)
+        gate.set()
+        link.rig.settle()
+        deadline = time.monotonic() + 5
+        while len(link.app) < 3 and time.monotonic() < deadline:
+            time.sleep(0.005)
+        return {"request_sent": True, "caller_got": result[0] is not None if result else "did not return", "handed_over": [m for _s, m in link.app], "expected": [500, 501, 777],
+                "callbacks_started_while_the_first_was_running": [hex(s) for s, _n in early[1:]],
+                "threads": sorted({"dispatcher" if "dispatcher" in n else n for _s, n in threads})}
+    finally:
+        gate.set()
+        link.rig.stop()
+
+
 def queued_at_link_loss_case():
     """Two messages arrive; the handler of the first is still running (the second is queued behind it) when the peer closes.  Then the
     peer connects again and sends a third.  Every one of them was received completely while the session was SELECTED."""
@@ -632,6 +702,11 @@ def run(tier, replay=None):
             if not (rc["handler_returned"] and rc["caller_got"] is not None and rc["caller_got"][:2] == (1, 2) and rc["seconds"] < 2.0
                     and [m for _s, m in rc["handed_to_the_application"]] == [7301]):
                 report.violation({"kind": "counterexample", "what": "a request made from inside a message handler did not receive the reply that arrived (it timed out / the reply was handed to the application)", **rc}, True, tag="callbackrequest")
+            lr = late_reply_case()
+            cov["reply_for_a_requester_that_just_gave_up"] = lr
+            if not lr.get("request_sent") or lr["handed_over"] != lr["expected"] or lr["callbacks_started_while_the_first_was_running"] or lr["threads"] != ["dispatcher"]:
+                report.violation({"kind": "counterexample", "what": "a reply whose requester gave up while the receiver thread was handing it over was not handed to the application after the messages "
+                                  "that arrived before it, by the dispatcher thread, one callback at a time", **lr}, True, tag="latereply")
             ql = queued_at_link_loss_case()
             cov["queued_at_link_loss"] = ql
             known = {e["id"]: e for e in common.known_findings("C06") if e.get("status") == "open"}
